@@ -149,3 +149,17 @@ CLAIMED['C18'] = (
     NOTE_COMMON + 'RRG idempotence is a hypothesis of the pipeline theorems (checked on the code and the model on every run, not yet proved); '
     'postcondition theorems of MDG/MEG/MUO not proved yet (partial).',
     'Lean 4 proof (DFS exit-set exactness, list induction over linearisation/reduction) + exact correspondence + postcondition oracles')
+CLAIMED['C07'] = (
+    'DESIGN.md 5/C07',
+    'Every add_* generator is a program over four primitives (fresh uuid label, add_gate, mark_as_output, raise); two theorems hold for '
+    'ALL such programs: (frame) on a host satisfying the C02 invariant only fresh non-INPUT gates of accepted arity are appended, '
+    'inputs/blocks/old gates are untouched and every valuation of the host extends to the result (pre-existing gates keep their '
+    'function); (soundness) every valuation of the result satisfies the equations of the added gates. On top: the regenerated '
+    'binary_tt_to_type table is correct; all seven blocks (half/full adders XAIG+AIG, Stockmeyer, MDFA, simplified MDFA); '
+    'add_sum_n_bits (XAIG MDFA scheme, AIG scheme, easy) = number of true bits for every n, basis spelling, endianness; '
+    'add_sum_two_numbers = a+b and with_shift = a+b*2^shift for every shift; add_sum_n_weighted_bits and _naive: '
+    'sum(out*2^level)=sum(in*2^weight) with strictly increasing output levels (sorted-list/sentinel loop invariant incl. the level '
+    'bound that makes the sentinel break unreachable); AIG basis (enum or any string spelling) adds no XOR/NXOR. The modelled '
+    'generators are compared gate for gate (uuid pinned) with the code on hosts built through the public API.',
+    NOTE_COMMON + 'Gate-count bounds and add_sum_pow2_m1 value: search oracle only (partial). Fuel sufficiency by correspondence.',
+    'Lean 4 proof (free-monad program logic: frame + soundness once, loop invariants per generator) + regenerated table + gate-exact correspondence')
